@@ -565,6 +565,50 @@ func lookAlikes(base *cors.Config) []*cors.Config {
 	return out
 }
 
+// buildVia returns a middleware configured with cfg and debug mode OFF, reached in one of the ways an application may get there;
+// by the documentation all of them are equivalent to NewMiddleware(cfg). nil if cfg is rejected.
+func buildVia(cfg cors.Config, k int) *cors.Middleware {
+	other := cors.Config{Origins: []string{"https://somewhere-else.example"}, RequestHeaders: []string{"x-other"}, Methods: []string{"PATCH"}}
+	var m *cors.Middleware
+	var err error
+	switch k % 6 {
+	case 0:
+		m, err = cors.NewMiddleware(cfg)
+	case 1: // zero value, wrapped before being configured
+		m = new(cors.Middleware)
+		wrapEarly(m)
+		err = m.Reconfigure(cloneConfig(&cfg))
+	case 2: // debug on under another configuration, passthrough round trip, then the configuration
+		m, _ = cors.NewMiddleware(other)
+		m.SetDebug(true)
+		m.Reconfigure(nil)
+		err = m.Reconfigure(cloneConfig(&cfg))
+	case 3: // debug switched on and off again
+		m, err = cors.NewMiddleware(cfg)
+		if err == nil {
+			m.SetDebug(true)
+			m.SetDebug(false)
+		}
+	case 4: // from another configuration with debug on, switched off afterwards; early-wrapped handlers
+		m, _ = cors.NewMiddleware(other)
+		wrapEarly(m)
+		m.SetDebug(true)
+		err = m.Reconfigure(cloneConfig(&cfg))
+		m.SetDebug(false)
+	default: // a rejected Reconfigure in between; SetDebug(true) while passthrough (a no-op)
+		m = new(cors.Middleware)
+		m.SetDebug(true)
+		bad := cors.Config{Origins: []string{"https://x.example"}, MaxAgeInSeconds: -9}
+		m.Reconfigure(&bad)
+		m.SetDebug(true)
+		err = m.Reconfigure(cloneConfig(&cfg))
+	}
+	if err != nil {
+		return nil
+	}
+	return m
+}
+
 func scribbleHeader(h http.Header, with string) {
 	for _, v := range h {
 		scribble(v, with)
@@ -914,8 +958,21 @@ func cmdLife(args []string) {
 			if p.cfg == nil {
 				lr.zero("m")
 			} else {
-				lr.newMW("m", p.id, *p.cfg)
+				own := cloneConfig(p.cfg) // the caller's own Config value (spare capacity behind every list)
+				lr.newMW("m", p.id, *own)
 				lr.setDebug("m", p.dbg)
+				lr.observe("m")
+				// the caller KEEPS USING that value: appends an entry that sorts first to every list (it fits the spare
+				// capacity, so the backing arrays stay the same), makes it invalid, and passes it to Reconfigure
+				own.Methods = append(own.Methods, "AAA")
+				own.RequestHeaders = append(own.RequestHeaders, "a-first")
+				own.ResponseHeaders = append(own.ResponseHeaders, "a-first")
+				own.Origins = append(own.Origins, "aaa://first.example")
+				own.MaxAgeInSeconds = 86401
+				lr.reconf("m", "invalid", own)
+				lr.observe("m")
+				own.MaxAgeInSeconds, own.PreflightSuccessStatus = p.cfg.MaxAgeInSeconds, 199
+				lr.reconf("m", "invalid", own)
 			}
 			lr.observe("m")
 			for _, ic := range invalid {
